@@ -617,7 +617,7 @@ func init() {
 		Bubble: true,
 		Cases: func(tier string) int {
 			if tier == "thorough" {
-				return 30000
+				return 60000
 			}
 
 			return 1000
